@@ -16,7 +16,8 @@ RULE = ('After a minimal login (optionally with compression 0/64/256) the '
         'patterns >= 2^31 and negative Longs from protocol 339), '
         'position-and-look (finite floats, every flag byte, teleport ids at '
         'VarInt boundaries), frames with ids in no table for the version '
-        '(0-600 bytes of arbitrary content), known-but-unhandled packets '
+        '(0-600 bytes of arbitrary content, incl. frame lengths of exactly '
+        'threshold-1 / threshold / threshold+1), known-but-unhandled packets '
         '(time update, chat, update health), delivered at once, in bursts '
         'or reactively, ended by a play disconnect (or end-of-stream); '
         'versions: the 30 releases + random supported ones (quick), all '
